@@ -375,3 +375,22 @@ Proof.
   - apply bsort_NoDup. eapply Permutation_NoDup; eauto.
   - intros x. rewrite !bsort_In. split; apply Permutation_in; [assumption|now symmetry].
 Qed.
+
+(* ---- python set(ids) / dict restriction, used by the translated FederatedData code ---- *)
+Fixpoint bdedup (l : list bytes) : list bytes :=          (* set(client_ids) as a duplicate-free list *)
+  match l with
+  | [] => []
+  | i :: l' => if bmem i l' then bdedup l' else i :: bdedup l'
+  end.
+
+Fixpoint omap {A B} (f : A -> option B) (l : list A) : option (list B) :=
+  match l with
+  | [] => Some []
+  | x :: l' => match f x, omap f l' with Some y, Some r => Some (y :: r) | _, _ => None end
+  end.
+
+(* {k: mapping[k] for k in ids}: None when some lookup raises KeyError *)
+Definition brestrict {V} (t : list (bytes * V)) (ids : list bytes) : option (list (bytes * V)) :=
+  omap (fun i => match bassoc i t with Some r => Some (i, r) | None => None end) ids.
+
+Definition bisnil {A} (l : list A) : bool := match l with [] => true | _ => false end.
